@@ -3367,6 +3367,13 @@ func (a *Association) createForwardTSN() *chunkForwardTSN {
 			break
 		}
 
+		if c.unordered {
+			// RFC 3758 sec 3.2: the Stream/SSN pairs describe the ordered
+			// messages being skipped. An unordered chunk carries no meaningful
+			// SSN and must not move the receiver's ordered cursor.
+			continue
+		}
+
 		ssn, ok := streamMap[c.streamIdentifier]
 		if !ok {
 			streamMap[c.streamIdentifier] = c.streamSequenceNumber
